@@ -1,5 +1,434 @@
+//! C05 — t_eval: exactly the requested times, with the interpolated values.
+//! Pilot-run adversarial placement, exact sequence comparison, dense twin comparison,
+//! early-stop prefix rules.
+
+use super::common::*;
 use crate::ctx::{Ctx, Meta};
+use crate::probe::*;
+use crate::problems::*;
 use crate::report::Report;
+use crate::rng::Rng;
+use crate::util::{bits_eq, next_down, next_up, par_for, EPS};
+use ivp::prelude::*;
+use serde_json::json;
+
+const PLACEMENTS: [&str; 8] = ["uniform", "on_boundaries", "boundary_pm_1e-12_1e-9", "several_per_step_with_gaps", "duplicates", "random", "boundary_pm_ulps", "only_ends"];
+const MODES: [&str; 4] = ["success", "step_budget", "terminal_event", "failing_problem"];
+
+fn toward(x: f64, dir: f64, ulps: usize) -> f64 {
+    let mut v = x;
+    for _ in 0..ulps {
+        v = if dir > 0.0 { next_up(v) } else { next_down(v) };
+    }
+    v
+}
+
+fn place(rng: &mut Rng, kind: usize, grid: &[f64], x0: f64, xend: f64) -> Vec<f64> {
+    let dir = (xend - x0).signum();
+    let ng = grid.len();
+    let mut v: Vec<f64> = Vec::new();
+    match kind {
+        0 => {
+            let m = 2 + rng.below(20);
+            for i in 0..=m {
+                v.push(x0 + (xend - x0) * i as f64 / m as f64);
+            }
+            *v.last_mut().unwrap() = xend;
+        }
+        1 => {
+            for (k, &g) in grid.iter().enumerate() {
+                if k == 0 || k == ng - 1 || rng.chance(0.5) {
+                    v.push(g);
+                }
+            }
+        }
+        2 => {
+            for &g in grid.iter() {
+                let off = *rng.pick(&[1e-12, 1e-9, 3e-13, 2e-11]) * (1.0 + g.abs());
+                match rng.below(4) {
+                    0 => v.push(g - dir * off),
+                    1 => v.push(g + dir * off),
+                    2 => {
+                        v.push(g - dir * off);
+                        v.push(g);
+                        v.push(g + dir * off);
+                    }
+                    _ => {}
+                }
+            }
+        }
+        3 => {
+            let mut k = 0;
+            while k + 1 < ng {
+                let (a, b) = (grid[k], grid[k + 1]);
+                let m = 1 + rng.below(5);
+                let mut th: Vec<f64> = (0..m).map(|_| rng.range(0.02, 0.98)).collect();
+                th.sort_by(|p, q| p.partial_cmp(q).unwrap());
+                for t in th {
+                    v.push(a + (b - a) * t);
+                }
+                k += 1 + rng.below(4); // skip steps: none in a step
+            }
+        }
+        4 => {
+            for &g in grid.iter() {
+                if rng.chance(0.4) {
+                    v.push(g);
+                    if rng.bool() {
+                        v.push(g);
+                    }
+                }
+            }
+            for k in 0..ng - 1 {
+                if rng.chance(0.4) {
+                    let t = grid[k] + (grid[k + 1] - grid[k]) * rng.range(0.1, 0.9);
+                    v.push(t);
+                    v.push(t);
+                }
+            }
+            v.sort_by(|p, q| if dir > 0.0 { p.partial_cmp(q).unwrap() } else { q.partial_cmp(p).unwrap() });
+        }
+        5 => {
+            let m = 1 + rng.below(25);
+            for _ in 0..m {
+                v.push(x0 + (xend - x0) * rng.f());
+            }
+            v.sort_by(|p, q| if dir > 0.0 { p.partial_cmp(q).unwrap() } else { q.partial_cmp(p).unwrap() });
+        }
+        6 => {
+            for &g in grid.iter() {
+                match rng.below(4) {
+                    0 => v.push(toward(g, -dir, 1 + rng.below(12))),
+                    1 => v.push(toward(g, dir, 1 + rng.below(12))),
+                    2 => {
+                        v.push(toward(g, -dir, 1 + rng.below(3)));
+                        v.push(g);
+                        v.push(toward(g, dir, 1 + rng.below(3)));
+                    }
+                    _ => {}
+                }
+            }
+        }
+        _ => {
+            v.push(x0);
+            v.push(xend);
+        }
+    }
+    // inside the span, monotone in the direction of integration (duplicates only for kind 4)
+    let mut out: Vec<f64> = Vec::new();
+    for t in v {
+        if (t - x0) * dir < 0.0 || (t - xend) * dir > 0.0 {
+            continue;
+        }
+        match out.last() {
+            None => out.push(t),
+            Some(&l) => {
+                let d = (t - l) * dir;
+                if d > 0.0 || (d == 0.0 && kind == 4) {
+                    out.push(t);
+                }
+            }
+        }
+    }
+    if out.is_empty() {
+        out.push(xend);
+    }
+    out
+}
+
 pub fn run(ctx: &Ctx) -> (Report, Meta) {
-    (Report::new(&ctx.prop), Meta::new("not built yet"))
+    let k_exact = 100.0;
+    let meta = Meta::new(
+        "closed-form problems (linear blocks, logistic, Riccati, Bernoulli, rational, Prothero-Robinson; time-warped and mixed, dim 1..3) x 6 methods x both directions x tolerances; a pilot run reveals the accepted-step grid, then requested times are placed by 8 placement kinds (uniform, exactly on boundaries, boundary +-1e-12/1e-9, several per step with empty steps, duplicates, random, boundary +- 1..12 ulps, only the two ends) x 4 modes (success, step budget, terminal event placed relative to the grid, failing problem with a finite-time singularity). Each case runs t_eval with dense off and on, the twin without t_eval, and the unrestricted run. Non-trivial = case with >= 1 requested time strictly inside a step and >= 1 within 1e-9 of a step boundary (distinct by scenario hash).",
+    )
+    .assume("the twin run without t_eval has the same step grid: verified per case through the ode-log hash before it is used (else inconclusive)")
+    .assume("values at requested times within 1e-11 of a step boundary may come from either adjacent step: compared to rounding, all others bitwise with sol(t) of the dense twin")
+    .thresholds(json!({"exact_solution_factor_K": k_exact, "either_zone_beyond_stop": "8 ulps"}))
+    .floor("cases_checked", 400)
+    .floor("requested_times_checked", 4000)
+    .floor("values_compared_bitwise_with_dense_twin", 2000)
+    .floor("early_stop_cases_checked", 100)
+    .floor("terminal_cases_checked", 40)
+    .floor("boundary_coincidences", 300);
+
+    let n = ctx.size(12_000, 400_000);
+    let rep = par_for(n, "C05", |i, rep| {
+        let case_id = format!("case/{}", i);
+        if !ctx.want(&case_id) {
+            return;
+        }
+        let mut rng = Rng::derive(ctx.seed, 5, i as u64);
+        let kind = i % PLACEMENTS.len();
+        let mode = (i / PLACEMENTS.len()) % MODES.len();
+        let method = METHODS[(i / 32) % 6];
+        let m = mname(method);
+        let dir = if rng.bool() { 1.0 } else { -1.0 };
+        let x0 = match rng.below(4) {
+            0 => 0.0,
+            1 => rng.range(-2.0, 2.0),
+            2 => rng.sign() * rng.range(5.0, 40.0),
+            _ => 0.5,
+        };
+        let span = rng.logu(0.3, 6.0);
+        let mut xend = x0 + dir * span;
+        let (prob, amp): (Composite, f64) = if mode == 3 {
+            // u' = 1 + u^2 from u0: singular at tau = pi/2 - atan(u0); integrate past it (forward in s)
+            let u0 = rng.range(-0.3, 0.8);
+            let c = Composite::new(vec![Base::Tan { u0 }], Warp::Id, None, x0);
+            let tsing = std::f64::consts::FRAC_PI_2 - u0.atan();
+            xend = x0 + tsing * rng.range(1.2, 2.5);
+            (c, 1.0)
+        } else {
+            random_composite(&mut rng, x0, xend, 3, 10.0)
+        };
+        let dir = (xend - x0).signum();
+        let nst = prob.dim();
+        let mut base = Scn::new(method, x0, xend, prob.y0());
+        let (rt, at) = random_tols(&mut rng, method, nst);
+        base.rtol = rt;
+        base.atol = at;
+        base.user_jac = is_implicit(method) && rng.bool();
+        if method == Method::RK4 {
+            base.first_step = Some(dir * (xend - x0).abs() / (15.0 + rng.below(40) as f64));
+            if mode == 3 {
+                return; // fixed-step RK4 does not stop at a singularity (not an error-controlled method)
+            }
+        }
+        base.budget = 300_000;
+        let case0 = base.describe(&prob);
+        let sig = |clause: &str| format!("C05/{}/{}/{}+{}", clause, m, PLACEMENTS[kind], MODES[mode]);
+
+        // pilot (plain) run: reveals the grid
+        let pilot = run_solve(&prob, &base, false, false);
+        let grid: Vec<f64> = match &pilot.out {
+            Outcome::Ok(s) if s.t.len() >= 2 && (mode == 3 || s.status == Status::Success) => s.t.clone(),
+            Outcome::Panic(msg) => {
+                rep.violate(&sig("no_panic"), format!("panic: {}", msg), &case_id, case0);
+                return;
+            }
+            _ => {
+                rep.inconclusive("pilot_run_unusable");
+                return;
+            }
+        };
+        if mode == 3 && matches!(pilot.out.sol().map(|s| s.status), Some(Status::Success)) {
+            rep.inconclusive("failing_problem_did_not_fail");
+            return;
+        }
+        let nacc = grid.len() - 1;
+        // the restricted scenario
+        let mut scn = base.clone();
+        let mut t_event: Option<f64> = None;
+        match mode {
+            1 => {
+                if nacc < 3 {
+                    rep.inconclusive("too_few_steps_for_a_budget");
+                    return;
+                }
+                scn.max_steps = Some(1 + rng.below(nacc - 1));
+            }
+            2 => {
+                // terminal time event placed relative to the grid
+                let k = rng.below(nacc);
+                let (a, b) = (grid[k], grid[k + 1]);
+                let c = match rng.below(5) {
+                    0 => a + (b - a) * rng.range(0.05, 0.95),
+                    1 => toward(b, -dir, 1 + rng.below(5)),
+                    2 => a + (b - a) * 1e-9,
+                    3 => b - (b - a) * 1e-9,
+                    _ => 0.5 * (a + b),
+                };
+                if (c - x0) * dir <= 0.0 || (c - xend) * dir >= 0.0 {
+                    rep.inconclusive("event_not_strictly_inside");
+                    return;
+                }
+                scn.events = vec![EvSpec { kind: EvKind::Time { c }, dir: 0, terminal: Some(1) }];
+                t_event = Some(c);
+            }
+            _ => {}
+        }
+        let te = place(&mut rng, kind, &grid, x0, xend);
+        let mut sa = scn.clone();
+        sa.t_eval = Some(te.clone());
+        sa.dense = false;
+        let mut sb = sa.clone();
+        sb.dense = true;
+        let mut st = scn.clone();
+        st.dense = true;
+        let ra = run_solve(&prob, &sa, false, false);
+        let rb = run_solve(&prob, &sb, false, false);
+        let rtw = run_solve(&prob, &st, false, false);
+        rep.evals(4);
+        let mut case = sa.describe(&prob);
+        case["t_eval_full"] = json!(te);
+        case["grid"] = crate::util::jv_trunc(&grid, 40);
+        let (a, b, tw) = match (&ra.out, &rb.out, &rtw.out) {
+            (Outcome::Ok(a), Outcome::Ok(b), Outcome::Ok(t)) => (a, b, t),
+            (Outcome::Panic(msg), _, _) | (_, Outcome::Panic(msg), _) | (_, _, Outcome::Panic(msg)) => {
+                rep.violate(&sig("no_panic"), format!("panic: {}", msg), &case_id, case);
+                return;
+            }
+            _ => {
+                rep.inconclusive("run_not_ok");
+                return;
+            }
+        };
+        if ra.log.ode_hash != rtw.log.ode_hash || rb.log.ode_hash != rtw.log.ode_hash {
+            rep.inconclusive("twin_grid_differs_(C12_precondition)");
+            return;
+        }
+        rep.count("cases_checked", 1);
+        // nontriviality
+        let tgrid = &tw.t;
+        let near = |t: f64| tgrid.iter().any(|&g| (t - g).abs() <= 1e-9 * (1.0 + g.abs()));
+        let strictly_inside = |t: f64| tgrid.iter().all(|&g| g != t);
+        if te.iter().any(|&t| near(t)) && te.iter().any(|&t| strictly_inside(t) && !near(t)) {
+            rep.nontrivial(scn_hash(&sa, &prob));
+        }
+        rep.count("boundary_coincidences", te.iter().filter(|&&t| near(t)).count() as u64);
+
+        // ---- dense toggle must not change the values
+        if !bits_eq(&a.t, &b.t) || !crate::util::bits_eq2(&a.y, &b.y) || a.status != b.status {
+            rep.violate(&sig("dense_toggle_changes_values"), "t/y reported with dense_output on and off differ bitwise".into(), &case_id, case.clone());
+        }
+        if a.t.len() != a.y.len() {
+            rep.violate(&sig("len_t_eq_len_y"), format!("len(t)={} len(y)={}", a.t.len(), a.y.len()), &case_id, case.clone());
+            return;
+        }
+        // ---- expected sequence
+        let stop = *tw.t.last().unwrap();
+        let stopped_early = a.status != Status::Success;
+        let mut reported = a.t.clone();
+        let mut reported_y = a.y.clone();
+        if a.status == Status::UserInterrupt {
+            rep.count("terminal_cases_checked", 1);
+            // final entry must be the event point
+            let ok = reported.last().map(|t| t.to_bits()) == Some(stop.to_bits()) && bits_eq(reported_y.last().unwrap(), tw.y.last().unwrap());
+            if !ok {
+                rep.violate(&sig("terminal_point_last"), format!("last reported entry {:?} is not the terminal event point {:e}", reported.last(), stop), &case_id, case.clone());
+                return;
+            }
+            reported.pop();
+            reported_y.pop();
+        }
+        if stopped_early {
+            rep.count("early_stop_cases_checked", 1);
+        }
+        let prev_pt = if tw.t.len() >= 2 { tw.t[tw.t.len() - 2] } else { stop };
+        let slack = 10.0 * EPS * stop.abs().max(prev_pt.abs()).max(1e-300); // the code uses 8 eps max(|xold|,|x|) and rounds x + tol
+        // requested times not beyond the stopping point (definitely) / within the either-zone
+        let must: Vec<f64> = te.iter().cloned().filter(|&t| (t - stop) * dir <= 0.0 || !stopped_early).collect();
+        let may: Vec<f64> = te.iter().cloned().filter(|&t| stopped_early && (t - stop) * dir > 0.0 && (t - stop) * dir <= slack).collect();
+        let ok_seq = if reported.len() >= must.len() && reported.len() <= must.len() + may.len() {
+            bits_eq(&reported[..must.len()], &must) && bits_eq(&reported[must.len()..], &may[..reported.len() - must.len()])
+        } else {
+            false
+        };
+        rep.count("requested_times_checked", te.len() as u64);
+        if !ok_seq {
+            let clause = if !stopped_early {
+                "exact_times_on_success"
+            } else if reported.len() < must.len() {
+                "early_stop_missing_times"
+            } else {
+                "early_stop_extra_times"
+            };
+            rep.violate(
+                &sig(clause),
+                format!("status {:?}, stop at {:e}: requested {} times, {} of them not beyond the stop; reported {} (first difference shown in case)", a.status, stop, te.len(), must.len(), reported.len()),
+                &case_id,
+                {
+                    let mut c = case.clone();
+                    c["reported_t"] = crate::util::jv_trunc(&a.t, 60);
+                    c["expected_t"] = crate::util::jv_trunc(&must, 60);
+                    c
+                },
+            );
+            return;
+        }
+        // ---- values
+        let scale_at = |y: &[f64], j: usize| sa.atol.at(j) + sa.rtol.at(j) * y[j].abs();
+        for (k, &t) in reported.iter().enumerate() {
+            let v = &reported_y[k];
+            if v.len() != nst {
+                rep.violate(&sig("sample_dimension"), format!("value at t={:e} has dimension {}", t, v.len()), &case_id, case.clone());
+                return;
+            }
+            // vs dense twin
+            if t.to_bits() == x0.to_bits() {
+                if !bits_eq(v, &sa.y0) {
+                    rep.violate(&sig("value_at_x0"), format!("value reported at x0 is {:?}, y0 = {:?}", v, sa.y0), &case_id, case.clone());
+                }
+            } else if v.iter().any(|x| !(x.abs() < 1e8)) {
+                // blow-up region of the failing problem: adjacent interpolants legitimately disagree wildly
+                rep.count("values_skipped_in_blowup_region", 1);
+            } else if let Ok(w) = b.sol(t) {
+                let on_grid = tgrid.iter().any(|&g| g.to_bits() == t.to_bits());
+                let far = tgrid.iter().all(|&g| g.to_bits() == t.to_bits() || (t - g).abs() > 1e-11 * (1.0 + g.abs()));
+                if far && (on_grid || true) {
+                    rep.count("values_compared_bitwise_with_dense_twin", 1);
+                    if !bits_eq(v, &w) {
+                        rep.violate(&sig("value_is_interpolant"), format!("value at t={:e} is {:?} but sol(t) of the dense twin is {:?}", t, v, w), &case_id, case.clone());
+                        break;
+                    }
+                } else {
+                    let mut f = vec![0.0; nst];
+                    prob.f(t, &w, &mut f);
+                    for j in 0..nst {
+                        let den = 64.0 * EPS * (w[j].abs() + (1.0 + t.abs()) * f[j].abs()) + 1e-11 * (1.0 + t.abs()) * f[j].abs();
+                        if (v[j] - w[j]).abs() > den {
+                            rep.violate(&sig("value_is_interpolant_near_boundary"), format!("value at t={:e} (near a step boundary) is {:?}, sol(t) = {:?}", t, v, w), &case_id, case.clone());
+                            break;
+                        }
+                    }
+                    rep.count("values_compared_to_rounding_near_boundary", 1);
+                }
+            } else if (t - stop) * dir <= 0.0 {
+                rep.violate(&sig("dense_twin_cannot_evaluate"), format!("sol({:e}) of the dense twin failed although t is not beyond the stop {:e}", t, stop), &case_id, case.clone());
+            }
+            // vs exact solution
+            if method != Method::RK4 && v.iter().all(|x| x.is_finite()) && mode != 3 {
+                if let Some(ex) = prob.exact(t) {
+                    for j in 0..nst {
+                        let bound = k_exact * amp * (tw.naccpt.max(1) as f64) * scale_at(&ex, j);
+                        let err = (v[j] - ex[j]).abs();
+                        rep.worst(&format!("err_over_naccpt_tol_{}", m), err / (amp * (tw.naccpt.max(1) as f64) * scale_at(&ex, j)));
+                        if err > bound {
+                            rep.violate(&sig("value_accuracy"), format!("value at t={:e} comp {} is {:e}, exact {:e}: error {:e} > {:e}", t, j, v[j], ex[j], err, bound), &case_id, case.clone());
+                            break;
+                        }
+                    }
+                }
+            }
+        }
+        // ---- prefix of the unrestricted run (budget / terminal)
+        if stopped_early && (mode == 1 || mode == 2) {
+            let mut sf = base.clone();
+            sf.t_eval = Some(te.clone());
+            if mode == 2 {
+                // same event, not terminal
+                sf.events = scn.events.clone();
+                for e in sf.events.iter_mut() {
+                    e.terminal = None;
+                }
+            }
+            let rf = run_solve(&prob, &sf, false, false);
+            if let Outcome::Ok(f) = &rf.out {
+                let kmax = reported.len().min(f.t.len());
+                // points whose step is complete in both runs: all reported ones
+                for k in 0..kmax {
+                    if f.t[k].to_bits() != reported[k].to_bits() || !bits_eq(&f.y[k], &reported_y[k]) {
+                        rep.violate(&sig("prefix_of_unrestricted_run"), format!("entry {} (t={:e}) differs bitwise from the run without the budget / terminal flag", k, reported[k]), &case_id, case.clone());
+                        break;
+                    }
+                }
+                rep.count("prefix_entries_compared", kmax as u64);
+            }
+        }
+        let _ = t_event;
+        if i % 331 == 0 {
+            rep.sample(json!({"scenario": case, "status": format!("{:?}", a.status), "reported": a.t.len(), "requested": te.len(), "placement": PLACEMENTS[kind], "mode": MODES[mode]}));
+        }
+    });
+    (rep, meta)
 }
